@@ -1,0 +1,20 @@
+//go:build verif
+// +build verif
+
+package taskpool
+
+import "sync/atomic"
+
+var verifPointFn atomic.Value // func(name string)
+
+// VerifSetPoint installs the callback invoked at the named delay points
+// (build tag "verif" only).
+func VerifSetPoint(f func(name string)) {
+	verifPointFn.Store(f)
+}
+
+func verifPoint(name string) {
+	if f, _ := verifPointFn.Load().(func(string)); f != nil {
+		f(name)
+	}
+}
